@@ -95,6 +95,22 @@ CHECKS = {
         "scope' is asserted); one recorded finding (C11-1) excluded by construction",
         "DESIGN.md §4 C11",
     ),
+    "C12": (
+        "exploration",
+        "exhaustive enumeration of short send sequences + Hypothesis-generated sequences up to 6 "
+        "over the ASGI send alphabet; oracle = reference automaton of the ASGI spec, zero "
+        "wire-byte delta for raising calls, own parsers over the final wire bytes, "
+        "header-injection scan",
+        "For HTTP/1.1, HTTP/2 and WebSocket on both carriers: every enumerated invalidity class "
+        "(body before start, second start, anything after completion, websocket.send before "
+        "accept, unknown type, str/pseudo headers, non-str push path/text) must raise with "
+        "nothing written; valid messages must not raise; what is on the wire must parse as at "
+        "most one final response head per request and contain only header fields the "
+        "application supplied intact (no CR/LF/NUL).",
+        "client passive; spec-dubious combinations outside the statement's list are "
+        "unconstrained for raising (wire checks still apply)",
+        "DESIGN.md §4 C12",
+    ),
     "C17": (
         "exploration",
         "Hypothesis-generated requests x WSGI application shapes through WSGIWrapper, the WSGI "
